@@ -5,6 +5,7 @@ package proxy
 import (
 	"context"
 	"fmt"
+	"io"
 	"strconv"
 	"strings"
 	"sync/atomic"
@@ -19,6 +20,7 @@ import (
 	"google.golang.org/grpc/metadata"
 	"google.golang.org/grpc/status"
 
+	"github.com/temporalio/s2s-proxy/common"
 	"github.com/temporalio/s2s-proxy/config"
 	"github.com/temporalio/s2s-proxy/encryption"
 	"github.com/temporalio/s2s-proxy/logging"
@@ -34,13 +36,15 @@ func (l *vfCountingLogger) Info(msg string, tags ...tag.Tag) {}
 //
 //	N                         new observer + new servers
 //	R idx v                   ReportStreamValue(idx, v)
-//	H mode ok cc cs sc ss     StreamWorkflowReplicationMessages with metadata (values: text, "-" = absent)
+//	H mode ok cc cs sc ss     StreamWorkflowReplicationMessages with metadata (values: text, "-" = absent); mode intra = routing mode,
+//	                          opened by a peer instance (intra-proxy marker) towards a shard that is local here
 func TestVerifObserver(t *testing.T) {
 	sc, w, done := verifIO(t)
 	defer done()
 	var obs *ReplicationStreamObserver
 	var lg *vfCountingLogger
 	var client *vfAdminClient
+	sms := map[string]ShardManager{}
 	servers := map[string]adminservice.AdminServiceServer{}
 	loggers := logging.NewLoggerProvider(log.NewNoopLogger(), config.NewMockConfigProvider(config.S2SProxyConfig{}))
 	lockState := func() string {
@@ -74,20 +78,35 @@ func TestVerifObserver(t *testing.T) {
 		switch f[0] {
 		case "N":
 			wedged = false
+			for k, sm := range sms {
+				if k != "intra0" {
+					sm.Stop()
+				}
+				delete(sms, k)
+			}
 			lg = &vfCountingLogger{}
 			obs = NewReplicationStreamObserver(lg)
 			client = &vfAdminClient{autoClose: true}
 			ctx := context.Background()
-			mk := func(mode config.ShardCountMode) adminservice.AdminServiceServer {
+			mkWith := func(mode config.ShardCountMode, ml *config.MemberlistConfig, key string) adminservice.AdminServiceServer {
 				scc := config.ShardCountConfig{Mode: mode}
-				sm := NewShardManager(nil, scc, encryption.TLSConfig{}, loggers)
-				_ = sm.Start(ctx)
+				sm := NewShardManager(ml, scc, encryption.TLSConfig{}, loggers)
+				if err := sm.Start(ctx); err != nil {
+					t.Fatalf("shard manager start: %v", err)
+				}
+				sms[key] = sm
 				return NewAdminServiceProxyServer("verif", client, client, AdminServiceOverrides{}, []string{"inbound"}, obs.ReportStreamValue,
 					scc, LCMParameters{LCM: 12, TargetShardCount: 4}, RoutingParameters{RoutingLocalShardCount: 4, DirectionLabel: "verif"},
 					loggers, sm, ctx)
 			}
+			mk := func(mode config.ShardCountMode) adminservice.AdminServiceServer { return mkWith(mode, nil, string(mode)) }
 			servers = map[string]adminservice.AdminServiceServer{
 				"default": mk(config.ShardCountDefault), "lcm": mk(config.ShardCountLCM), "routing": mk(config.ShardCountRouting)}
+			// routing mode of a multi-instance deployment (memberlist configured, so the intra-proxy manager exists; this
+			// instance is the only member of its cluster)
+			servers["intra"] = mkWith(config.ShardCountRouting, &config.MemberlistConfig{NodeName: "verif-n0", BindAddr: "127.0.0.1", BindPort: 0, ProxyAddresses: map[string]string{}}, "intra")
+			servers["intra0"] = servers["routing"]
+			sms["intra0"] = sms[string(config.ShardCountRouting)]
 			fmt.Fprintln(w, "N")
 		case "R":
 			idx, _ := strconv.ParseInt(f[1], 10, 64)
@@ -130,6 +149,22 @@ func TestVerifObserver(t *testing.T) {
 					md.Set(k, strings.ReplaceAll(f[3+i], "\\s", " "))
 				}
 			}
+			intra := mode == "intra" || mode == "intra0"
+			cleanup := func() {}
+			if intra {
+				routingSM := sms[mode]
+				// a stream opened by a peer proxy instance towards a shard this instance serves (routing mode): marker and
+				// origin headers as the peer sets them; the serving shard is local here, as when its own stream is up
+				md.Set(common.IntraProxyHeaderKey, common.IntraProxyHeaderValue)
+				md.Set(common.IntraProxyOriginProxyIDHeader, "verif-peer")
+				scl, e1 := strconv.Atoi(strings.ReplaceAll(f[5], "\\s", " "))
+				ssh, e2 := strconv.Atoi(strings.ReplaceAll(f[6], "\\s", " "))
+				if e1 == nil && e2 == nil {
+					local := history.ClusterShardID{ClusterID: int32(scl), ShardID: int32(ssh)}
+					at := routingSM.RegisterShard(local)
+					cleanup = func() { routingSM.UnregisterShard(local, at) }
+				}
+			}
 			client.mu.Lock()
 			if clientOK {
 				client.openErr = nil
@@ -153,12 +188,23 @@ func TestVerifObserver(t *testing.T) {
 				}
 			}()
 			var out string
-			select {
-			case out = <-res:
-			case <-time.After(5 * time.Second):
-				out = "BLOCKED"
+			if intra {
+				// the peer keeps the stream open for a moment, then hangs up; the handler has to return
+				select {
+				case out = <-res:
+				case <-time.After(25 * time.Millisecond):
+					ss.recv <- vfItem[vfReq]{err: io.EOF}
+				}
+			}
+			if out == "" {
+				select {
+				case out = <-res:
+				case <-time.After(5 * time.Second):
+					out = "BLOCKED"
+				}
 			}
 			ss.cancel()
+			cleanup()
 			if out == "BLOCKED" || lockState() == "locked=1" {
 				wedged = true
 				fmt.Fprintf(w, "H %s active=? %s\n", out, lockState())
